@@ -401,6 +401,7 @@ fn special(op: &str, pattern: &str, casei: bool, limit: Option<usize>, text: &st
             Some(format!("{}:{}", if borrowed { "B" } else { "O" }, e))
         }
         "state_history" => Some(state_history(pattern)),
+        "state_observed" => Some(state_observed(pattern, text, pos)),
         _ => None,
     }
 }
@@ -408,6 +409,86 @@ fn special(op: &str, pattern: &str, casei: bool, limit: Option<usize>, text: &st
 #[cfg(not(fancy_regex_verif))]
 fn state_history(_spec: &str) -> String {
     "NO-HOOKS".to_string()
+}
+
+#[cfg(not(fancy_regex_verif))]
+fn state_observed(_spec: &str, _text: &str, _pos: usize) -> String {
+    "NO-HOOKS".to_string()
+}
+
+/// Run the real search of the pattern (third field of the spec) under the cfg-guarded
+/// observer of /repo: every alternative is snapshotted (whole saves vector) when it is
+/// created; when it is resumed the real state must equal the snapshot; a commit must leave
+/// exactly the alternatives it names.
+#[cfg(fancy_regex_verif)]
+fn state_observed(spec: &str, text: &str, pos: usize) -> String {
+    use fancy_regex::internal::verif_hooks::{set_observer, Op};
+    use std::cell::RefCell;
+    use std::rc::Rc;
+    let pattern = spec.split('\u{1}').nth(2).unwrap_or("");
+    let re = match Regex::new(pattern) {
+        Ok(r) => r,
+        Err(e) => return format!("BUILD-ERR:{:?}", e),
+    };
+    let viol: Rc<RefCell<Vec<String>>> = Rc::new(RefCell::new(Vec::new()));
+    let model: Rc<RefCell<Vec<(usize, usize, Vec<usize>)>>> = Rc::new(RefCell::new(Vec::new()));
+    let nslots: Rc<RefCell<usize>> = Rc::new(RefCell::new(0));
+    let (v2, m2, n2) = (viol.clone(), model.clone(), nslots.clone());
+    // the state proper: the program's slots and the live part of the auxiliary stack
+    // (saves[n] is its stack pointer, entries above the pointer are dead)
+    fn project(saves: &[usize], n: usize) -> Vec<usize> {
+        let mut v: Vec<usize> = saves[..n.min(saves.len())].to_vec();
+        if saves.len() > n {
+            let sp = saves[n];
+            if sp >= n + 1 && sp <= saves.len() {
+                v.extend_from_slice(&saves[n + 1..sp]);
+            } else {
+                v.push(usize::MAX - 1);
+            }
+        }
+        v
+    }
+    set_observer(Some(Box::new(move |op: Op, saves: &[usize], depth: usize| {
+        let mut m = m2.borrow_mut();
+        let mut v = v2.borrow_mut();
+        let n = *n2.borrow();
+        match op {
+            Op::Start { n_saves } => {
+                m.clear();
+                *n2.borrow_mut() = n_saves;
+                return;
+            }
+            Op::Push { pc, ix } => m.push((pc, ix, project(saves, n))),
+            Op::Pop { pc, ix } => match m.pop() {
+                None => v.push("abandon: no alternative left in the model".to_string()),
+                Some((ppc, pix, snap)) => {
+                    let now = project(saves, n);
+                    if (ppc, pix) != (pc, ix) {
+                        v.push(format!("abandon: resumed at ({},{}) but the alternative was created as ({},{})", pc, ix, ppc, pix));
+                    } else if snap != now {
+                        v.push(format!("abandon: state {:?} differs from the state {:?} the alternative was created with", now, snap));
+                    }
+                }
+            },
+            Op::Cut { count } => {
+                if count > m.len() {
+                    v.push(format!("commit: to {} alternatives but only {} exist", count, m.len()));
+                }
+                m.truncate(count);
+            }
+        }
+        if depth != m.len() {
+            v.push(format!("{} alternatives, model {}", depth, m.len()));
+        }
+    })));
+    let _ = re.captures_from_pos(text, pos);
+    set_observer(None);
+    let v = viol.borrow();
+    if v.is_empty() {
+        "OK".to_string()
+    } else {
+        format!("MISMATCH: {}", v[0])
+    }
 }
 
 /// Drive the real backtracking state (through the cfg-guarded wrapper in /repo) with a
